@@ -28,7 +28,7 @@ Qed.
 Lemma cohen_inverts : inverts cohen_f (1 / 20) (19 / 20) (2 / 100).
 Proof.
   intros y Hy. unfold cohen_f, Lang. cbv zeta.
-  interval with (i_bisect y, i_depth 18, i_prec 40).
+  interval with (i_bisect y, i_taylor y, i_degree 6, i_depth 24, i_prec 50).
 Qed.
 
 (* ---- Morch / Kuhn-Grun: odd polynomial of degree 19 with positive coefficients *)
@@ -47,5 +47,5 @@ Qed.
 Lemma morch_inverts : inverts morch_f (1 / 20) (4 / 5) (4 / 1000).
 Proof.
   intros y Hy. unfold morch_f, Lang. cbv zeta.
-  interval with (i_bisect y, i_depth 18, i_prec 40).
+  interval with (i_bisect y, i_taylor y, i_degree 6, i_depth 24, i_prec 50).
 Qed.
